@@ -44,10 +44,40 @@ fn filter_case(ch: &mut Choices<'_>, st: &mut Stats) -> CaseResult {
     let cfg = GenCfg { max_depth: 4, ..GenCfg::full() };
     let mut gen_ = Gen::new(ch, cfg);
     let expr = gen_.gen_bool(4);
+    // now and then the filter is nested as deep as the default parser allows (128): the answers
+    // depend on the identifiers only, not on how deep they sit
+    let deep_mode = if gen_.ch.chance(1, 12) { 1 + gen_.ch.draw(3) } else { 0 };
+    let deep_field = if deep_mode == 3 {
+        gen_.need_func("lower");
+        Some(gen_.field_of(&MType::Bytes))
+    } else {
+        None
+    };
     gen_.finish_scheme();
     let recipe = gen_.r.clone();
     let ch = gen_.ch;
-    let text = print_expr(&expr, &Style::plain());
+    let mut text = print_expr(&expr, &Style::plain());
+    let base_depth = depth_expr(&expr);
+    if deep_mode > 0 && base_depth < 100 {
+        let slack = ch.draw(3);
+        match deep_mode {
+            1 => {
+                let k = 128 - base_depth - slack;
+                text = format!("{}{text}{}", "(".repeat(k), ")".repeat(k));
+            }
+            2 => {
+                // not ( not ( ... : two levels per pair
+                let k = (128 - base_depth - slack - 1) / 2;
+                text = format!("{}({text}){}", "not (".repeat(k), ")".repeat(k));
+            }
+            _ => {
+                let k = 128 - slack;
+                let f = deep_field.as_ref().unwrap();
+                text = format!("({text}) and {}{f}{} == \"x\"", "lower(".repeat(k), ")".repeat(k));
+            }
+        }
+        st.class(["", "deep:parentheses", "deep:not-chain", "deep:nested-calls"][deep_mode]);
+    }
     let show = || json!({"scheme": recipe.show(), "filter": text});
     let scheme = recipe.build();
     let ast = match catch(|| scheme.parse(&text).map_err(|e| e.to_string())) {
@@ -58,6 +88,9 @@ fn filter_case(ch: &mut Choices<'_>, st: &mut Stats) -> CaseResult {
     let mut used = BTreeSet::new();
     let mut in_list = BTreeSet::new();
     idents_expr(&expr, &mut used, false, &mut in_list);
+    if let Some(f) = &deep_field {
+        used.insert(f.clone());
+    }
     let first = first_leaf_fields(&expr);
     for f in &recipe.fields {
         st.eval();
